@@ -454,6 +454,15 @@ func analyse(x *Exec) *RunResult {
 			}
 		}
 	}
+	if x.sc.Cfg.QueueLimit > 0 {
+		// the survivability probe after an overflow: anything wrong with it is "dead after overflow"
+		for _, v := range res.Violations {
+			if strings.Contains(v.Detail, "zz_probe") {
+				add(Violation{Kind: "dead-after-overflow", Watcher: v.Watcher, Site: v.Kind, Detail: "after a queue overflow the Watcher no longer serves a fresh watch correctly: " + v.Detail})
+				break
+			}
+		}
+	}
 	for i := range x.sim.Faults.Names {
 		cnt["fault_"+x.sim.Faults.Names[i]] += x.sim.Faults.Counts[i]
 	}
